@@ -100,7 +100,8 @@ PROPS = {
     "C11": dict(
         stages=[dict(test="TestC11Encode", pkg="c11", quick=(8, 12000), thorough=(16, 600000), timeout=dict(quick=600, thorough=3300)),
                 dict(test="TestC11Tick", pkg="c11", quick=(4, 8000), thorough=(16, 200000), timeout=dict(quick=600, thorough=3300)),
-                dict(test="TestC11TickExhaustive", pkg="c11", thorough=(16, 1), timeout=dict(thorough=3300), no_rapid=True)],
+                dict(test="TestC11TickExhaustive", pkg="c11", thorough=(16, 1), timeout=dict(thorough=3300), no_rapid=True),
+                dict(test="TestC11Chain", quick=(8, 25), thorough=(16, 1500), timeout=dict(quick=900, thorough=3300))],
         rule="Encode: originators (direct/tunnel; empty, delimiter-like, long fields), times, signing ids and contents of every kind (oracle result "
              "proto/full ABI/partial ABI, feeds prices fixed-point/tick ABI, tunnel packet, transition, text) run through the real handlers, plus a "
              "second request differing in exactly one field; non-trivial = oracle payload with non-empty result or feeds/tunnel payload with >=2 "
@@ -111,7 +112,8 @@ PROPS = {
                     "field change, pairwise distinct tags, internal kinds flagged; tick T must satisfy price(T) <= p < price(T+1) against a 384-bit "
                     "big.Float reference with a 2^-64 relative guard band",
         assumptions=["keccak collision resistance", "comparisons closer than 2^-64 relative to a tick boundary are skipped and counted",
-                     "on-chain layer (Signing.Message parsed back against stores) is exercised by the TSS histories of C05/C08"],
+                     "on-chain layer: Signing.Message of user text requests and oracle-result requests (proto encoder) is parsed back with the reference layout and "
+                     "compared with the requester, block time, signing id, text and the stored Result; MsgRequestSignature with tunnel / transition content must be refused"],
         nt_floor=0.2,
     ),
     "C12": dict(
